@@ -85,6 +85,9 @@ const (
 type Fault struct {
 	Kind   FaultKind
 	Status uint16
+	// Tail (FCloseMid only): when > 0 the reply is cut that many bytes before its end (for a hit:
+	// inside the value) instead of in the middle
+	Tail int
 }
 
 type Server struct {
@@ -331,7 +334,11 @@ func (s *Server) serve(c io.ReadWriteCloser, id int) {
 		case FCloseAfterApply:
 			return
 		case FCloseMid:
-			out.Write(reply[:len(reply)/2])
+			cut := len(reply) / 2
+			if f.Tail > 0 && f.Tail < len(reply) {
+				cut = len(reply) - f.Tail
+			}
+			out.Write(reply[:cut])
 			c.Write(out.Bytes())
 			return
 		}
